@@ -1,6 +1,8 @@
 import GapicModel.Model.Samples
 import GapicModel.Pinned.Regexes
 import GapicModel.Pinned.CharClass
+import GapicModel.Pinned.Funcs
+import GapicModel.Pinned.Tables
 /-
 C14 — generated samples are valid, executable and consistent with their metadata (DESIGN §7.14).
 Property theorems about `Model/Samples.lean` (+ helper lemmas in `section Aux`), non-vacuity examples,
@@ -661,21 +663,26 @@ theorem requiredNonOneof_filter (o : List Char) (fs : List Field) :
 
 end Aux
 
-/-- `request_has_required` (partial: scalar and enum fields only — for message-typed required fields
-    see `required_message_unpopulated_counterexample`): every REQUIRED field outside a oneof whose type
-    is a scalar or an enum gets exactly its mock value in the default request, under its own name. -/
-theorem request_has_required_partial (env : Env) (fuel : Nat) (m : Msg) (pre : List (List Char))
+/-- `request_has_required`: every REQUIRED field outside a oneof is handled according to its type —
+    a scalar gets exactly its mock value under its own name; an enum its last value; a message-typed
+    field gets EXACTLY the default request of its message, prefixed with the field name (all of its
+    entries are entries of the request).  So a required message field is populated iff the default
+    request of its message is non-empty (`required_message_unpopulated_counterexample` is the other case). -/
+theorem request_has_required (env : Env) (fuel : Nat) (m : Msg) (pre : List (List Char))
     (es : List Entry) (h : requestObject env (fuel + 1) m pre = .ok es)
     (f : Field) (hf : f ∈ m.fields) (hreq : f.required = true) (hone : f.oneof = none) :
     (∀ t, f.kind = .prim t → ⟨pre ++ [f.name], primMockValue f t⟩ ∈ es) ∧
     (∀ vs v, f.kind = .enum vs → vs.getLast? = some v →
-        ⟨pre ++ [f.name], if f.repeated then .many [.str v] else .one (.str v)⟩ ∈ es) := by
+        ⟨pre ++ [f.name], if f.repeated then .many [.str v] else .one (.str v)⟩ ∈ es) ∧
+    (∀ tn sub, f.kind = .msg tn → env.get tn = some sub →
+        ∃ ses, requestObject env fuel sub (pre ++ [f.name]) = .ok ses ∧ (∀ e ∈ ses, e ∈ es) ∧
+          (∀ e ∈ ses, ∃ tail, e.path = pre ++ f.name :: tail)) := by
   have hmem : f ∈ requestFields m := by
     unfold requestFields requiredNonOneof
     apply List.mem_append_right
     simp [List.mem_filter, hf, hreq, hone]
   simp only [requestObject] at h
-  constructor
+  refine ⟨?_, ?_, ?_⟩
   · intro t hk
     have : fieldEntries env (requestObject env fuel) f pre = .ok [⟨pre ++ [f.name], primMockValue f t⟩] := by
       simp [fieldEntries, hk]
@@ -685,6 +692,45 @@ theorem request_has_required_partial (env : Env) (fuel : Nat) (m : Msg) (pre : L
         .ok [⟨pre ++ [f.name], if f.repeated then .many [.str v] else .one (.str v)⟩] := by
       simp [fieldEntries, hk, hv]
     exact fieldsEntries_mem_of_ok env _ f pre _ _ es hmem this h _ (List.mem_singleton.mpr rfl)
+  · intro tn sub hk hsub
+    have hfe : fieldEntries env (requestObject env fuel) f pre = requestObject env fuel sub (pre ++ [f.name]) := by
+      simp [fieldEntries, hk, hsub]
+    -- the field's own entries cannot have failed, otherwise the whole request would have
+    cases hs : requestObject env fuel sub (pre ++ [f.name]) with
+    | error x =>
+      exfalso
+      rw [hs] at hfe
+      have : ∀ (fs : List Field) (es' : List Entry), f ∈ fs →
+          fieldsEntries env (requestObject env fuel) fs pre ≠ .ok es' := by
+        intro fs
+        induction fs with
+        | nil => intro _ hm; cases hm
+        | cons g gs ih =>
+          intro es' hm hok
+          simp only [fieldsEntries] at hok
+          rcases List.mem_cons.mp hm with hh | hh
+          · subst hh
+            simp [hfe] at hok
+          · cases hg : fieldEntries env (requestObject env fuel) g pre with
+            | error y => simp [hg] at hok
+            | ok hereg =>
+              simp only [hg] at hok
+              cases hr : fieldsEntries env (requestObject env fuel) gs pre with
+              | error y => simp [hr] at hok
+              | ok rest => exact ih rest hh hr
+      exact this _ es hmem h
+    | ok ses =>
+      refine ⟨ses, rfl, ?_, ?_⟩
+      · intro e he
+        rw [hs] at hfe
+        exact fieldsEntries_mem_of_ok env _ f pre ses _ es hmem hfe h e he
+      · intro e he
+        obtain ⟨g, _, tail, ht⟩ := requestObject_paths env fuel sub (pre ++ [f.name]) ses hs e he
+        exact ⟨g.name :: tail, by rw [ht]; simp⟩
+
+example : (requestObject [("Book".toList, ⟨[⟨"pages".toList, .prim .int, false, true, none, false⟩]⟩)] 5
+    ⟨[⟨"book".toList, .msg "Book".toList, false, true, none, false⟩]⟩ []).toOption
+    = some [⟨["book".toList, "pages".toList], .one (.int 528)⟩] := by decide +kernel
 
 /-- mock values are never a type's default value (so a populated scalar is visible on the wire):
     for a field name made of non-NUL characters every primitive mock is truthy. -/
@@ -943,5 +989,113 @@ example : (transform [⟨["a".toList], .one (.int 97)⟩, ⟨["book".toList, "pa
     some [⟨"a".toList, .single (.one (.int 97))⟩,
          ⟨"book".toList, .body [(["pages".toList], .one (.int 528)), (["isbn".toList], .one (.str "x".toList))]⟩] := by
   decide +kernel
+
+/-! ### raw render vs emitted file -/
+
+/-- `segments_depend_only_on_kinds`: the metadata is computed on the RAW render while the emitted file
+    is `fix_whitespace(raw)`.  The segments are a function of the per-line classification only, so the
+    metadata describes the emitted file whenever post-processing keeps the sequence of line kinds
+    (the harness checks exactly this on every sample, with the machine-translated `fix_whitespace`). -/
+theorem segments_depend_only_on_kinds (t : ClassTables) (mk : Markers) (raw emitted : List (List Char))
+    (h : raw.map (classify t mk) = emitted.map (classify t mk)) :
+    parseSegments t mk raw = parseSegments t mk emitted := by
+  unfold parseSegments
+  rw [h]
+
+/-- …and it does NOT when a line disappears: dropping one blank line in front of the markers moves
+    every later boundary by one (the slip of seeded round 4). -/
+theorem blank_line_removed_shifts_segments_counterexample :
+    parseKinds [.start, .other, .other, .clientInit, .requestInit, .requestExec, .responseHandling, .stop] ≠
+    parseKinds [.start, .other, .clientInit, .requestInit, .requestExec, .responseHandling, .stop] := by
+  decide
+
+example : demoLines.map (classify Pinned.classTables pinnedMarkers) =
+    (demoLines.map fun l => l).map (classify Pinned.classTables pinnedMarkers) := by simp
+
+/-! ### ids, file names, called method -/
+
+section Aux
+
+theorem filter_tag_singleton (sp : Spec) : ∀ (all : List Spec), (all.map (·.regionTag)).Nodup → sp ∈ all →
+    (all.filter fun x => x.regionTag == sp.regionTag).length = 1 := by
+  intro all
+  induction all with
+  | nil => intro _ h; cases h
+  | cons a rest ih =>
+    intro hnd hmem
+    simp only [List.map_cons, List.nodup_cons, List.mem_map, not_exists, not_and] at hnd
+    simp only [List.filter_cons]
+    by_cases ha : a.regionTag = sp.regionTag
+    · have hrest : (rest.filter fun x => x.regionTag == sp.regionTag) = [] := by
+        rw [List.filter_eq_nil_iff]
+        intro x hx
+        simp only [beq_iff_eq]
+        intro hh
+        exact hnd.1 x hx (by rw [hh, ha])
+      simp [ha, hrest]
+    · have : sp ∈ rest := by
+        rcases List.mem_cons.mp hmem with h | h
+        · exact absurd (by rw [h]) ha
+        · exact h
+      have hb : (a.regionTag == sp.regionTag) = false := by simpa using ha
+      simp only [hb, Bool.false_eq_true, if_false]
+      exact ih hnd.2 this
+
+end Aux
+
+/-- `ids_are_tags_when_unique`: when no two specs share a region tag, every sample id — hence the
+    START/END tag written into the file and (through `to_snake_case`) the file name — is the region tag
+    recorded in the metadata; no hash suffix appears. -/
+theorem ids_are_tags_when_unique (hash : Spec → List Char) (all : List Spec)
+    (h : (all.map (·.regionTag)).Nodup) (sp : Spec) (hm : sp ∈ all) :
+    sampleId hash all sp = sp.regionTag := by
+  unfold sampleId
+  rw [filter_tag_singleton sp all h hm]
+  simp
+
+/-- combined with `region_tags_unique`: under the no-underscore / distinct-names hypotheses the ids of
+    all generated specs are their region tags. -/
+theorem sample_ids_equal_region_tags (hash : Spec → List Char) (v : List Char) (o : Opts) (svcs : List Service)
+    (hv : NoUs v)
+    (hnames : ∀ s ∈ svcs, NoUs s.shortname ∧ NoUs s.name ∧ ∀ r ∈ s.rpcs, NoUs r.name)
+    (hs : (svcs.map (·.name)).Nodup)
+    (hr : ∀ s ∈ svcs, (s.rpcs.map (·.name)).Nodup) :
+    ∀ sp ∈ sampleSpecs v o svcs, sampleId hash (sampleSpecs v o svcs) sp = sp.regionTag :=
+  fun sp hm => ids_are_tags_when_unique hash _ (region_tags_unique v o svcs hv hnames hs hr) sp hm
+
+/-- on the colliding names the id carries the hash suffix: the file's tag differs from `regionTag`. -/
+theorem sample_id_collision_counterexample :
+    let specs := sampleSpecs "v1".toList ⟨true, false⟩
+          [⟨"A_B".toList, "lib".toList, [⟨"C".toList, false⟩]⟩, ⟨"A".toList, "lib".toList, [⟨"B_C".toList, false⟩]⟩]
+    ∀ sp ∈ specs, sampleId (fun _ => "8cb92ea9".toList) specs sp = sp.regionTag ++ "_8cb92ea9".toList := by
+  decide +kernel
+
+/-- `called_method_matches_client`: for an RPC whose lower-cased name is not a Python keyword and that is
+    not hidden by selective generation, the method the sample calls is the method the metadata names
+    (and the client defines). -/
+theorem called_method_matches_client (snake : List Char → List Char) (kw : List (List Char)) (rpc : List Char)
+    (h : kw.contains (lowerAscii rpc) = false) :
+    calledMethod snake rpc false = metadataMethod snake kw rpc false := by
+  have hm : ¬ lowerAscii rpc ∈ kw := by simpa using h
+  simp [calledMethod, metadataMethod, clientMethodName, hm]
+
+example : (Pinned.pyKeywords.map String.toList).contains (lowerAscii "GetBook".toList) = false := by decide +kernel
+
+/-- …and for `Import` it is not (§9-F8): the sample calls `client.import`, the client has `import_`. -/
+theorem keyword_rpc_called_method_counterexample :
+    calledMethod Pinned.Funcs.to_snake_case "Import".toList false = "import".toList ∧
+    metadataMethod Pinned.Funcs.to_snake_case (Pinned.pyKeywords.map String.toList) "Import".toList false = "import_".toList := by
+  decide +kernel
+
+example : sampleFile Pinned.Funcs.to_snake_case "lib_v1_generated_Library_GetIAMPolicy2_sync".toList
+    = "lib_v1_generated_library_get_iam_policy2_sync.py".toList := by decide +kernel
+
+/-- `metadata_params_shape`: the parameter list is `request` + the flattened fields (or only `requests`
+    for client streaming) followed by exactly `retry, timeout, metadata`. -/
+theorem metadata_params_shape (cs : Bool) (it : List Char) (fl : List Param) :
+    (metadataParams cs it fl).map (·.name) =
+      (if cs then ["requests".toList] else "request".toList :: fl.map (·.name)) ++
+        ["retry".toList, "timeout".toList, "metadata".toList] := by
+  cases cs <;> simp [metadataParams, tailParams]
 
 end GapicModel.Props.C14
